@@ -260,6 +260,26 @@ func C18(c *core.Ctx) {
 			}
 		}
 		c.Decide(okDel, "R18.2", "prune-deletes-exactly-infinite", p.Pos(pr.Pos()), "an entry is deleted exactly on the edge asserting lowest1 == infinity", "Prune does not delete exactly the destinations whose best cost is infinity")
+		// ... and the test is made for EVERY entry of the table, not only for those that
+		// were marked dirty: an entry whose column was removed and refreshed elsewhere
+		// (RemoveNextHop refreshes itself and clears the mark) is unreachable and clean
+		{
+			tests := map[*ssa.BasicBlock]bool{}
+			for _, f := range core.EdgeFacts(pr, dead) {
+				tests[f.E.From] = true
+			}
+			isTest := func(in ssa.Instruction) bool {
+				_, isIf := in.(*ssa.If)
+				return isIf && tests[in.Block()]
+			}
+			okEvery := false
+			for b := range tests {
+				if h := loopHeader(b); h != nil && everyIterationPasses(pr, h, isTest) {
+					okEvery = true
+				}
+			}
+			c.Decide(okEvery, "R18.2", "prune-tests-every-entry", p.Pos(pr.Pos()), "every iteration over the table tests the entry's best cost against infinity", "Prune skips the infinity test for some entries (for example those not marked dirty): a destination that became unreachable through RemoveNextHop stays in the table and is advertised with cost infinity")
+		}
 		// dirty entries are refreshed before the test
 		ref := core.FindCallsDeep(pr, core.CalleeID{Pkg: "dv/table", Recv: "RibEntry", Name: "refresh"})
 		c.Decide(len(ref) > 0, "R18.2", "prune-refreshes-dirty", p.Pos(pr.Pos()), "dirty entries are refreshed in Prune", "Prune does not recompute dirty entries before testing their best cost")
